@@ -1,3 +1,247 @@
 import BB.Driver.Util
-/-! Placeholder driver for C17 (replaced when the model is built). -/
-def main : IO Unit := BB.Driver.loop (fun (s : Unit) _ => (s, "unimplemented")) ()
+import BB.Model.CachingSched
+/-!
+Line-protocol driver of the C17 models.  Sections are independent; the first word selects one.
+
+Composites (`BB.Caching.compGet` …; backends `src` = slow/secondary, `sink` = fast/primary):
+    c.init <repl>                 repl = noop | local | dedup.local | limit.local | dedup.limit.local | …
+    c.set <src|sink> <k> <v>      c.del <src|sink> <k>
+    c.fault <src|sink> <code> <id> | c.fault <src|sink> none     append to the backend's fault script
+    c.get <k> | c.getc <k>        -> ok <v> | err <code> <id>
+    c.cput <k> <v> | c.fput <k> <v>   readcaching / readfallback Put -> ok | err <code> <id>
+    c.cfm <k>… | c.ffm <k>…       readcaching / readfallback FindMissing -> ok <k>… | err <code> <id>
+    c.dump <n>                    contents (keys < n), calls, remaining script length of both backends
+
+Deduplicating replicator (`dstep`, `dSettle`):
+    d.init | d.call <cancelled> <k>… | d.cancel <i> | d.sink <i> present|missing|err <code> <id>
+    d.copy <i> ok | d.copy <i> err <code> <id> | d.settle [p <i>…] [a <i>…]  -> state of every caller
+Concurrency limiting (`lstep`): l.init <cap> | l.call <cancelled> <k>… | l.cancel <i> | l.base <i> ok|err… | l.settle …
+Queued (`qstep`): q.init <cap> <dur> | q.call <cancelled> <now> <k>… | q.cancel <i> | q.base <i> <now> ok|err… | q.settle <now> …
+Existence caching (`ecFindMissing`): e.init <cap> <dur> | e.set <k> | e.del <k> | e.fault <code> <id> | e.fault none
+    e.fm <now1> <now2> <k>…       -> ok <missing>… / asked <k>… | err <code> <id> / asked <k>…
+-/
+open BB.Driver BB.Caching
+
+structure S where
+  repl : Repl := .noop
+  pair : Pair := ⟨{ data := fun _ => none }, { data := fun _ => none }⟩
+  d : DState := {}
+  l : LState := { cap := 1 }
+  q : QState := { cache := { cap := 1, dur := 0 } }
+  ec : ECache := { cap := 1, dur := 0 }
+  eb : Backend := { data := fun _ => none }
+
+def showKeys (ks : List Nat) : String :=
+  if ks.isEmpty then "-" else " ".intercalate (ks.map toString)
+
+def showErr (e : Err) : String := s!"err {e.code} {e.id}"
+def showVal : Except Err Val → String
+  | .ok v => s!"ok {v}"
+  | .error e => showErr e
+def showOpt : Option Err → String
+  | none => "ok"
+  | some e => showErr e
+def showMissing : Except Err (List Key) → String
+  | .ok ks => s!"ok {showKeys ks}"
+  | .error e => showErr e
+
+def parseRepl (s : String) : Option Repl :=
+  let rec go : List String → Option Repl
+    | ["noop"] => some .noop
+    | ["local"] => some .localR
+    | "dedup" :: rest => (go rest).map .dedup
+    | "limit" :: rest => (go rest).map .limit
+    | _ => none
+  go (s.splitOn ".")
+
+def parseErr : List String → Option (Option Err)
+  | ["ok"] => some none
+  | ["none"] => some none
+  | ["err", c, i] => match nat? c, nat? i with
+    | some c, some i => some (some ⟨c, i⟩)
+    | _, _ => none
+  | _ => none
+
+def Backend.setKey (b : Backend) (k : Key) (v : Option Val) : Backend :=
+  { b with data := fun k' => if k' = k then v else b.data k' }
+
+def dumpBackend (b : Backend) (n : Nat) : String :=
+  let items := (List.range n).filterMap fun k => (b.data k).map fun v => s!"{k}={v}"
+  s!"{if items.isEmpty then "-" else ",".intercalate items} calls={b.calls} script={b.faults.length}"
+
+def onBackend (s : S) (which : String) (f : Backend → Backend) : Option S :=
+  if which == "src" then some { s with pair := ⟨f s.pair.src, s.pair.sink⟩ }
+  else if which == "sink" then some { s with pair := ⟨s.pair.src, f s.pair.sink⟩ }
+  else none
+
+/-- `p <i>… a <i>…` -/
+def parseSettle (ws : List String) : Option (List Nat × List Nat) :=
+  let rec go (ws : List String) (mode : Nat) (p a : List Nat) : Option (List Nat × List Nat) :=
+    match ws with
+    | [] => some (p.reverse, a.reverse)
+    | "p" :: rest => go rest 1 p a
+    | "a" :: rest => go rest 2 p a
+    | w :: rest => match nat? w with
+      | some n => if mode == 1 then go rest mode (n :: p) a else if mode == 2 then go rest mode p (n :: a) else none
+      | none => none
+  go ws 0 [] []
+
+def showDPc (c : DCaller) : String :=
+  let k := match c.todo with | k :: _ => toString k | [] => "?"
+  match c.pc with
+  | .enter => "enter"          -- never visible after a settle
+  | .wait _ => "wait"
+  | .sink _ => s!"sink({k})"
+  | .copy _ => s!"copy({k})"
+  | .dereg _ _ => "dereg"
+  | .publish _ _ => "publish"
+  | .done r => s!"ret({showOpt r})"
+
+def showD (s : DState) : String :=
+  if s.ncallers = 0 then "-" else
+  " ".intercalate ((List.range s.ncallers).map fun i => s!"{i}:{showDPc (s.callers i)}")
+
+def showL (s : LState) : String :=
+  if s.callers.isEmpty then "-" else
+  " ".intercalate (s.callers.zipIdx.map fun (c, i) =>
+    let p := match c.pc with
+      | .waiting => "wait"
+      | .inBase => "base"
+      | .afterBase _ => "afterbase"
+      | .done r => s!"ret({showOpt r})"
+    s!"{i}:{p}")
+
+def showQ (s : QState) : String :=
+  if s.callers.isEmpty then "-" else
+  " ".intercalate (s.callers.zipIdx.map fun (c, i) =>
+    let p := match c.pc with
+      | .queueing => "wait"
+      | .inBase ks => s!"base({",".intercalate (ks.map toString)})"
+      | .afterBase _ => "afterbase"
+      | .done r => s!"ret({showOpt r})"
+    s!"{i}:{p}")
+
+def bool? (w : String) : Option Bool := if w == "0" then some false else if w == "1" then some true else none
+
+def stepC (s : S) : List String → S × String
+  | ["c.init", r] =>
+    match parseRepl r with
+    | some r => ({ s with repl := r, pair := ⟨{ data := fun _ => none }, { data := fun _ => none }⟩ }, "ok")
+    | none => (s, "bad-op")
+  | ["c.set", w, k, v] =>
+    match nat? k, nat? v with
+    | some k, some v => match onBackend s w (fun b => Backend.setKey b k (some v)) with
+      | some s' => (s', "ok")
+      | none => (s, "bad-op")
+    | _, _ => (s, "bad-op")
+  | ["c.del", w, k] =>
+    match nat? k with
+    | some k => match onBackend s w (fun b => Backend.setKey b k none) with
+      | some s' => (s', "ok")
+      | none => (s, "bad-op")
+    | none => (s, "bad-op")
+  | "c.fault" :: w :: rest =>
+    match parseErr (if rest == ["none"] then rest else "err" :: rest) with
+    | some f => match onBackend s w (fun b => { b with faults := b.faults ++ [f] }) with
+      | some s' => (s', "ok")
+      | none => (s, "bad-op")
+    | none => (s, "bad-op")
+  | ["c.get", k] =>
+    match nat? k with
+    | some k => let r := compGet s.repl s.pair k; ({ s with pair := r.1 }, showVal r.2)
+    | none => (s, "bad-op")
+  | ["c.getc", k] =>
+    match nat? k with
+    | some k => let r := compGetComposite s.repl s.pair k; ({ s with pair := r.1 }, showVal r.2)
+    | none => (s, "bad-op")
+  | ["c.cput", k, v] =>
+    match nat? k, nat? v with
+    | some k, some v => let r := cachePut s.pair k v; ({ s with pair := r.1 }, showOpt r.2)
+    | _, _ => (s, "bad-op")
+  | ["c.fput", k, v] =>
+    match nat? k, nat? v with
+    | some k, some v => let r := fallbackPut s.pair k v; ({ s with pair := r.1 }, showOpt r.2)
+    | _, _ => (s, "bad-op")
+  | "c.cfm" :: ks =>
+    match allNats? ks with
+    | some ks => let r := cacheFindMissing s.pair ks; ({ s with pair := r.1 }, showMissing r.2)
+    | none => (s, "bad-op")
+  | "c.ffm" :: ks =>
+    match allNats? ks with
+    | some ks => let r := fallbackFindMissing s.repl s.pair ks; ({ s with pair := r.1 }, showMissing r.2)
+    | none => (s, "bad-op")
+  | ["c.dump", n] =>
+    match nat? n with
+    | some n => (s, s!"src:{dumpBackend s.pair.src n} sink:{dumpBackend s.pair.sink n}")
+    | none => (s, "bad-op")
+  | _ => (s, "bad-op")
+
+def stepD (s : S) : List String → S × String
+  | ["d.init"] => ({ s with d := {} }, "ok")
+  | "d.call" :: cn :: ks =>
+    match bool? cn, allNats? ks with
+    | some cn, some ks =>
+      match dstep s.d (.call ks cn) with
+      | some d => ({ s with d := d }, s!"ok {s.d.ncallers}")
+      | none => (s, "disabled")
+    | _, _ => (s, "bad-op")
+  | ["d.cancel", i] =>
+    match nat? i with
+    | some i => match dstep s.d (.cancel i) with
+      | some d => ({ s with d := d }, "ok")
+      | none => (s, "disabled")
+    | none => (s, "bad-op")
+  | "d.sink" :: i :: rest =>
+    let rep : Option SinkReply := match rest with
+      | ["present"] => some .present
+      | ["missing"] => some .missing
+      | ["err", c, e] => match nat? c, nat? e with
+        | some c, some e => some (.err ⟨c, e⟩)
+        | _, _ => none
+      | _ => none
+    match nat? i, rep with
+    | some i, some rep => match dstep s.d (.sinkReply i rep) with
+      | some d => ({ s with d := d }, "ok")
+      | none => (s, "disabled")
+    | _, _ => (s, "bad-op")
+  | "d.copy" :: i :: rest =>
+    match nat? i, parseErr rest with
+    | some i, some r => match dstep s.d (.copyEnd i r) with
+      | some d => ({ s with d := d }, "ok")
+      | none => (s, "disabled")
+    | _, _ => (s, "bad-op")
+  | "d.settle" :: rest =>
+    match parseSettle rest with
+    | some (p, a) => let d := dSettle p a s.d; ({ s with d := d }, showD d)
+    | none => (s, "bad-op")
+  | _ => (s, "bad-op")
+
+def stepL (s : S) : List String → S × String
+  | ["l.init", cap] =>
+    match nat? cap with
+    | some cap => ({ s with l := { cap := cap } }, "ok")
+    | none => (s, "bad-op")
+  | "l.call" :: cn :: ks =>
+    match bool? cn, allNats? ks with
+    | some cn, some ks =>
+      match lstep s.l (.call ks cn) with
+      | some l => ({ s with l := l }, s!"ok {s.l.callers.length}")
+      | none => (s, "disabled")
+    | _, _ => (s, "bad-op")
+  | ["l.cancel", i] =>
+    match nat? i with
+    | some i => match lstep s.l (.cancel i) with
+      | some l => ({ s with l := l }, "ok")
+      | none => (s, "disabled")
+    | none => (s, "bad-op")
+  | "l.base" :: i :: rest =>
+    match nat? i, parseErr rest with
+    | some i, some r => match lstep s.l (.baseEnd i r) with
+      | some l => ({ s with l := l }, "ok")
+      | none => (s, "disabled")
+    | _, _ => (s, "bad-op")
+  | "l.settle" :: rest =>
+    match parseSettle rest with
+    | some (p, a) => let l := lSettle p a s.l; ({ s with l := l }, s!"{showL l} held={l.held}")
+    | none => (s, "bad-op")
+  | _ => (s, "bad-op")
